@@ -10,6 +10,7 @@ import (
 	"github.com/aperturerobotics/bifrost/link"
 	"github.com/aperturerobotics/bifrost/peer"
 	"github.com/aperturerobotics/bifrost/transport"
+	"github.com/pkg/errors"
 	"github.com/quic-go/quic-go"
 	"github.com/sirupsen/logrus"
 )
@@ -163,6 +164,20 @@ func (t *Transport) DialPeer(ctx context.Context, peerID peer.ID, as string) (li
 	lnk, err := dl.result.Await(ctx)
 	if err != nil {
 		return nil, false, err
+	}
+
+	// the dial is not pinned to a peer id: check that the peer that answered at
+	// this address is the peer we were asked to dial. otherwise this is not a
+	// link to peerID: report a (non-fatal) error so that the caller retries.
+	if len(peerID) != 0 {
+		if lnkPeer := lnk.GetRemotePeer(); lnkPeer != peerID {
+			return nil, false, errors.Errorf(
+				"dialed %s expecting peer %s but peer %s answered",
+				as,
+				peerID.String(),
+				lnkPeer.String(),
+			)
+		}
 	}
 
 	return lnk, false, err
